@@ -255,6 +255,12 @@ func TestC18(t *testing.T) {
 				d := []time.Duration{1, ttl / 4, ttl / 2, ttl - 1, ttl, ttl + 1, 3 * ttl}[rng.IntN(7)]
 				now = now.Add(d)
 				ops = append(ops, fmt.Sprintf("Advance(%d)", d))
+			case x == 11 && rng.IntN(3) == 0:
+				// the application retunes the public GCInterval field while the replayer is in use
+				gcInt = []time.Duration{0, ttl / 4, ttl / 2, ttl, 3 * ttl, 1}[rng.IntN(6)]
+				rp.GCInterval = gcInt
+				ops = append(ops, fmt.Sprintf("GCInterval=%d", gcInt))
+				r.Count("gc_interval_changes", 1)
 			default:
 				if len(probes) > 0 {
 					id := "id-" + probes[rng.IntN(len(probes))].tok
@@ -278,4 +284,85 @@ func TestC18(t *testing.T) {
 			r.Sample("valid_history", 1, map[string]any{"ttl": int64(ttl), "gc_interval": int64(gcInt), "auto": auto, "ops": ops[:min(len(ops), 30)]})
 		}
 	}
+	// (C) thousands of unexpired messages at once (the ring passes 4096 and 8192 slots), then a
+	// partial expiry: everything collected must be unreachable, everything else alive
+	nC := r.N(3, 40)
+	for i := 0; i < nC; i++ {
+		if !r.Mine("C", i) {
+			continue
+		}
+		key := fw.Key("C", i)
+		rng := r.Rand("C", i)
+		auto := rng.IntN(2) == 0
+		ttl := time.Duration(1000)
+		rp, _ := sse.NewValidReplayer(ttl, auto)
+		now := c09Epoch
+		rp.Now = func() time.Time { return now }
+		rp.GCInterval = 0
+		n1 := []int{4097, 4100, 5000, 8193, 9000}[rng.IntN(5)]
+		n2 := 100 + rng.IntN(4000)
+		r.Begin(key, fmt.Sprintf("valid large: %d puts, half a TTL later %d puts, first batch expires, GC (auto=%v)", n1, n2, auto))
+		var first, second []weak.Pointer[sse.Message]
+		okPut := true
+		for k := 0; k < n1+n2 && okPut; k++ {
+			if k == n1 {
+				now = now.Add(ttl / 2)
+			}
+			wp, err := c18Put(rp, "m"+strconv.Itoa(k), auto, []string{"a"})
+			if err != nil {
+				r.Violation(key, []string{"valid_put_rejected"}, nil, "C18: Put #%d failed: %v", k+1, err)
+				okPut = false
+			}
+			if k < n1 {
+				first = append(first, wp)
+			} else {
+				second = append(second, wp)
+			}
+		}
+		r.Count("large_histories", 1)
+		r.Eval(fw.Hash("C", fmt.Sprint(n1, n2, auto)), true)
+		if !okPut {
+			continue
+		}
+		now = now.Add(ttl/2 + 1)
+		rp.GC()
+		c18GC()
+		alive1, dead2 := 0, 0
+		for _, wp := range first {
+			if c18Alive(wp) {
+				alive1++
+			}
+		}
+		for _, wp := range second {
+			if !c18Alive(wp) {
+				dead2++
+			}
+		}
+		r.Count("dead_confirmed", int64(len(first)-alive1))
+		r.Count("live_controls_ok", int64(len(second)-dead2))
+		if alive1 > 0 {
+			sh := mon.ProbeShape(rp)
+			r.Violation(key, []string{"expired_message_reachable", "valid", "large"}, map[string]any{"first_batch": n1, "second_batch": n2, "auto": auto, "still_reachable": alive1, "shape": fmt.Sprintf("%+v", sh)},
+				"C18: after %d+%d Puts, expiry of the first batch and GC(), %d of the %d collected messages are still reachable", n1, n2, alive1, n1)
+		}
+		if dead2 > 0 {
+			r.Count("live_controls_dead", int64(dead2))
+		}
+		// and once everything has expired
+		now = now.Add(3 * ttl)
+		rp.GC()
+		c18GC()
+		alive2 := 0
+		for _, wp := range second {
+			if c18Alive(wp) {
+				alive2++
+			}
+		}
+		if alive2 > 0 {
+			r.Violation(key, []string{"expired_message_reachable", "valid", "large"}, map[string]any{"first_batch": n1, "second_batch": n2, "auto": auto, "still_reachable": alive2},
+				"C18: after everything expired and GC(), %d messages of the second batch are still reachable", alive2)
+		}
+		runtime.KeepAlive(rp)
+	}
 }
+
